@@ -39,3 +39,18 @@ package http
 //@ requires forall k string :: has(s.w.Logs, k) ==> validKey(s.w.Logs[k].PubKey)
 //@ ensures [a-failed-lookup-returns-no-sth] g.called && g.res1 != nil ==> !wr.called
 //@ ensures [otherwise-exactly-what-the-witness-holds-and-cosigned] g.called && g.res1 == nil ==> wr.called && wr.arg0 == g.res0
+
+// The log list over HTTP: the witness's list as JSON, or a 500 when the witness cannot produce it
+// (never a partial list).
+//@ func (*Server).getLogs
+//@ props C19
+//@ site GetLogs#1 as gl
+//@ site json.Marshal#1 as jm
+//@ site http.Error#1 as e1
+//@ site Write#1 as wr
+//@ requires s != nil && s.w != nil && s.w.db != nil && w != nil
+//@ ensures [a-witness-that-cannot-list-its-logs-answers-500-and-writes-no-list] gl.res1 != nil ==> e1.called && !wr.called
+//@ ensures [otherwise-the-list-is-what-is-written] gl.res1 == nil && jm.res1 == nil ==> wr.called
+//@ at e1 assert [as-an-internal-error] e1.code == 500
+//@ at jm assert [the-witnesss-own-list] typeof(jm.v) == []string
+//@ at wr assert [the-encoded-list] wr.arg0 == jm.res0
